@@ -166,3 +166,16 @@ def redeploy_of_a_sub_path_service_keeps_the_tls_policy():
     rq = lambda rid: dict(req(rid), uri=H(b"/api/x"), tls=True)
     return {"steps": [web, api("c2", b"tb:80"), rq("r1"), {"op": "sleep", "ns": SEC // 10}, api("c3", b"tc:80"), rq("r2"),
                       {"op": "sleep", "ns": SEC}, rq("r3"), dict(req("r4"), tls=True), {"op": "sleep", "ns": SEC}]}
+
+
+def rollout_redeploy_keeps_serving_the_rollout_group_while_it_waits():
+    """a split is in force (every cookie value included); the rollout targets are redeployed and the new ones take a while to
+    answer their first probe: requests of the rollout group that arrive during the wait are answered by the OLD rollout
+    targets (healthy, still in service), never by the proxy itself"""
+    rd = lambda cid, t, asyn, probes: {"op": "rollout_deploy", "id": cid, "async": asyn, "name": H(b"web"),
+                                       "targets": [{"name": H(t), "probes": probes}], "deploy_timeout": 5 * SEC, "drain_timeout": 3 * SEC}
+    rs = {"op": "rollout_set", "id": "c3", "name": H(b"web"), "pct": 100, "allow": []}
+    r = lambda rid: dict(req(rid), headers=[[H(b"Cookie"), H(b"kamal-rollout=alice")]])
+    return {"steps": [dep("c1", [b"ta:80"]), rd("c2", b"tr:80", False, ["ok"]), rs, r("r1"), {"op": "sleep", "ns": SEC // 10},
+                      rd("c4", b"ts:80", True, ["slow:%d:200" % (2 * SEC)]), {"op": "sleep", "ns": SEC // 2}, r("r2"), req("r3"),
+                      {"op": "sleep", "ns": SEC}, r("r4"), {"op": "sleep", "ns": 2 * SEC}, r("r5"), {"op": "sleep", "ns": 4 * SEC}, r("r6")]}
